@@ -116,33 +116,35 @@ def first_diff(a, b):
     return None
 
 
-def run_shim(mod, fname, inputs, out_sizes, max_paths=16, scalars=()):
+def run_shim(mod, fname, inputs, out_sizes, max_paths=16, scalars=(), fresh_externals=False, inout=()):
     """inputs: list of lists of Rat (one list per input pointer argument, in
     order); out_sizes: number of doubles read back from each output pointer
     (appended after the inputs); scalars: extra trailing non-pointer args.
     Returns [(path_atoms, [out lists], trace, assumptions)]."""
-    dom = PolyDomain()
+    dom = PolyDomain(fresh_externals=fresh_externals)
     m = Machine(mod, dom)
     bases = {}
 
     def make_args(mm):
         args = []
+        bases["ins"] = []
         for k, vals in enumerate(inputs):
             b = mm.alloc("in%d" % k)
             for i, v in enumerate(vals):
                 mm.store(ptr(b, 8 * i), v, 8)
             args.append(ptr(b, 0))
+            bases.setdefault("ins", []).append(b)
         outs = []
         for k, n in enumerate(out_sizes):
             b = mm.alloc("out%d" % k)
             outs.append(b)
             args.append(ptr(b, 0))
-        bases["outs"] = outs
+        bases["outs"] = outs + [bases["ins"][k] for k in inout]
         return args + list(scalars)
     res = []
     for path, ret, mem, trace, assum in explore(m, fname, make_args, max_paths=max_paths):
         outs = []
-        for b, n in zip(bases["outs"], out_sizes):
+        for b, n in zip(bases["outs"], list(out_sizes) + [len(inputs[k]) for k in inout]):
             vals = []
             for i in range(n):
                 c = mem[b].get(8 * i)
